@@ -15,6 +15,7 @@ from __future__ import annotations
 
 import copy
 import gc
+import sys
 import threading
 from collections import Counter
 from typing import Any
@@ -61,7 +62,8 @@ class Machine:
         self.sigs: List[str] = []
         self.kept_results: List[Any] = []
         # addresses of dead objects, by kind: new ones are made to lie there (world.new_at)
-        self.graves: Dict[str, Any] = {"fn": set(), "env": set(), "list": set(), "dict": set()}
+        self.graves: Dict[str, Any] = {"fn": set(), "env": set()}
+        self.morgue: List[Any] = []  # roots of documents that died (see op_forget_doc)
         self.pinned_docs: set = set()  # documents other documents share objects with
         self._tl = threading.local()
         world.REENTRY_HOOK = self._reentry
@@ -214,20 +216,21 @@ class Machine:
             self.pinned_docs.update((spec["wrap"], op["id"]))
             self.stats["docs_sharing_subobjects"] += 1
         else:
-            obj = D.build(spec)
             gspec = spec
-            kind = "list" if isinstance(obj, list) else "dict" if isinstance(obj, dict) else None
-            if kind and self.graves[kind]:
-                # the new document's root lies where the root or a container of a dead document was
-                root, reused = world.new_at(list if kind == "list" else dict, self.graves[kind])
-                if reused:
-                    if kind == "list":
-                        root.extend(obj)
+            obj = D.build(spec)
+            for k, dead in enumerate(self.morgue):
+                if type(dead) is type(obj):
+                    # the new document's root lies where a dead document's root was
+                    del self.morgue[k]
+                    dead.clear()
+                    if isinstance(dead, list):
+                        dead.extend(obj)
                     else:
-                        root.update(obj)
-                    obj = root
-                    self.stats["probe_document_allocated_where_a_dead_one_was"] += 1
-                del root
+                        dead.update(obj)
+                    obj = dead
+                    self.stats["probe_document_root_allocated_where_a_dead_root_was"] += 1
+                    break
+            dead = None
         self.docs[op["id"]] = {"spec": gspec, "obj": obj, "snap": D.snapshot(obj)}
         return "ok"
 
@@ -238,9 +241,6 @@ class Machine:
         d = self.docs.get(did)
         if d is None or did in self.pinned_docs or "json" not in d["spec"]:
             return "skip"
-        c = None
-        for _loc, c in _walk_containers(d["obj"]):
-            self.graves["list" if isinstance(c, list) else "dict"].add(id(c))
         for rec in self.iters.values():
             if rec["doc"] == did:
                 rec["it"] = None
@@ -248,9 +248,22 @@ class Machine:
                     rec["state"] = "dropped"
         self.seen_calls = [c for c in self.seen_calls if c["doc"] != did]
         self.kept_results = [k for k in self.kept_results if k[3] != did]
-        del self.docs[did], d, c
+        obj = self.docs.pop(did)["obj"]
+        d = None
         gc.collect()
         self.stats["docs_forgotten_and_collected"] += 1
+        # Is ``obj`` (this frame's variable) the last reference?  Then the document dies here, and
+        # its address is free for the next container the allocator hands out.  Which one that is,
+        # is the allocator's business and not repeatable -- so the death is kept on record instead:
+        # the dead root is parked and the next document of that kind is built IN it (emptied
+        # first), which is exactly what address reuse looks like from the library's side.  A
+        # container the library still refers to (a result cache, say) would not have died, and is
+        # not reused.
+        if isinstance(obj, (list, dict)):
+            if sys.getrefcount(obj) == 2:
+                self.morgue.append(obj)
+            else:
+                self.stats["docs_forgotten_but_still_referenced_from_elsewhere"] += 1
         return "ok"
 
     def op_mutate_doc(self, op: Dict[str, Any]) -> Any:
